@@ -1,6 +1,9 @@
 //! C17 — the vector primitives, called directly (in whichever backend this binary was built with).
 //! case: `c17 px <hex u64>`                 prefix_xor                    -> `r=<hex u64>`
 //!       `c17 ns <hex 64 bytes>`            get_nonspace_bits             -> `r=<hex u64>`
+//!       `c17 esc <hex prev> <hex backslash mask>`  get_escaped_branchless_u64 -> `r=<mask> c=<carry>`
+//!       `c17 sb <hex 64 bytes> <hex prev_instring> <hex prev_escaped>`  get_string_bits -> `r=<mask> pi=.. pe=..`
+//!       `c17 cb <hex text> o|a`          skip_container_loop over consecutive blocks -> `r=<bytes consumed>|none l=.. rr=..`
 //!       `c17 d2i <hex 16 bytes> <need>`    simd_str2int (first byte a digit, need in 1..=16) -> `r=<sum> n=<count>`
 //!       `c17 v <lanes> <hex bytes> <hex c>` u8xN eq/le, i8xN eq/le/gt against splat(c) -> `eq=.. le=.. ieq=.. ile=.. igt=..`
 use crate::util::*;
@@ -44,6 +47,47 @@ pub fn run() {
                     16 => lanes!(u8x16, i8x16, 16, &a, c),
                     32 => lanes!(u8x32, i8x32, 32, &a, c),
                     _ => lanes!(u8x64, i8x64, 64, &a, c),
+                }
+            }
+            "esc" => {
+                let (e, p2) = sonic_rs::verif::escaped_bits(u64::from_str_radix(&p[2], 16).unwrap(), u64::from_str_radix(&p[3], 16).unwrap());
+                format!("r={:x} c={:x}", e, p2)
+            }
+            "sb" => {
+                let b = unhex(&p[2]);
+                let mut a = [0u8; 64];
+                a.copy_from_slice(&b[..64]);
+                let (m, pi, pe) = sonic_rs::verif::string_bits(&a, u64::from_str_radix(&p[3], 16).unwrap(), u64::from_str_radix(&p[4], 16).unwrap());
+                format!("r={:x} pi={:x} pe={:x}", m, pi, pe)
+            }
+            "cb" => {
+                // a whole text through consecutive blocks (the last one zero-padded), as skip_container does
+                let data = unhex(&p[2]);
+                let (left, right) = if p[3] == "o" { (b'{', b'}') } else { (b'[', b']') };
+                let mut st = (0u64, 0u64, 0usize, 0usize);
+                let mut eaten = 0usize;
+                let mut res: Option<usize> = None;
+                let mut rest = &data[..];
+                loop {
+                    let mut a = [0u8; 64];
+                    let whole = rest.len() >= 64;
+                    let n = rest.len().min(64);
+                    a[..n].copy_from_slice(&rest[..n]);
+                    let (c, st2) = sonic_rs::verif::container_block(&a, st, left, right);
+                    st = st2;
+                    if let Some(c) = c {
+                        res = Some(eaten + c as usize);
+                        break;
+                    }
+                    if !whole {
+                        break;
+                    }
+                    eaten += 64;
+                    rest = &rest[64..];
+                }
+                match res {
+                    Some(n) => format!("r={} l={} rr={}", n, st.2, st.3),
+                    None => format!("r=none l={} rr={} pi={:x} pe={:x}", st.2, st.3, st.0, st.1),
                 }
             }
             "d2i" => {
@@ -125,5 +169,42 @@ pub fn gen(seed: u64, thorough: bool) {
         }
         a[0] = b'0' + (r.next() % 10) as u8;
         out.line(&format!("c17 d2i {} {}", hex(&a), 1 + r.next() % 16));
+    }
+    // escape masks: runs of backslashes of every length at every offset, with and without carry; random masks
+    for run in 1..=9usize {
+        for off in (0..64usize).step_by(if thorough { 1 } else { 5 }) {
+            let mut m = 0u64;
+            for k in 0..run { if off + k < 64 { m |= 1u64 << (off + k); } }
+            for prev in [0u64, 1] {
+                out.line(&format!("c17 esc {:x} {:x}", prev, m));
+                out.line(&format!("c17 esc {:x} {:x}", prev, m | (m << 11) | (m >> 17)));
+            }
+        }
+    }
+    for _ in 0..n {
+        let m = r.next() & r.next();
+        out.line(&format!("c17 esc {:x} {:x}", r.next() & 1, if r.next() % 3 == 0 { m } else { r.next() | m }));
+    }
+    // string bits: blocks of JSON-like bytes with quotes, backslashes, braces; all four carries
+    let alphabet: [u8; 12] = [b'"', b'\\', b'{', b'}', b'[', b']', b'a', b' ', b',', b':', b'1', b'\\'];
+    for _ in 0..n {
+        let block: Vec<u8> = (0..64).map(|_| *r.pick(&alphabet)).collect();
+        let pi = if r.next() % 2 == 0 { 0u64 } else { u64::MAX };
+        out.line(&format!("c17 sb {} {:x} {:x}", hex(&block), pi, r.next() & 1));
+    }
+    // whole texts through the block loop: generated documents (the part after the opening bracket), random brace soups, long texts
+    let cfg = GenCfg { max_depth: 5, max_items: 6, ws: true, dup_keys: true, long_strings: true };
+    for k in 0..n {
+        let d = gen_doc(&mut r, &cfg);
+        if d.len() > 1 && (d[0] == b'{' || d[0] == b'[') {
+            let kind = if d[0] == b'{' { "o" } else { "a" };
+            let mut t = d[1..].to_vec();
+            // followed by more text, so that the scan has to stop at the right place
+            t.extend_from_slice(b" , \"}]\" ]}");
+            out.line(&format!("c17 cb {} {}", hex(&t), kind));
+        }
+        let len = 1 + (r.next() % if k % 7 == 0 { 300 } else { 90 }) as usize;
+        let soup: Vec<u8> = (0..len).map(|_| *r.pick(&alphabet)).collect();
+        out.line(&format!("c17 cb {} {}", hex(&soup), if k % 2 == 0 { "o" } else { "a" }));
     }
 }
